@@ -7,6 +7,11 @@ EXTENDS Integers
 (* splitting methods)                                                         *)
 UlpFew == 4
 
+(* C03 "ends at the target to within a few rounding units": the gap is measured in   *)
+(* units of eps * max(1, |target|); the integrate loop's own exit tolerance is 32    *)
+(* machine epsilons (D.tol_epsilon) of unit-size quantities, so that is the bound.   *)
+EndUnits == 32
+
 (* C17 "reproduces every cubic exactly (to rounding)": the observed error of   *)
 (* the Hermite piece in units of eps*scale, where scale is the sum of the      *)
 (* absolute values of the terms of the Hermite formula (its condition).  Any   *)
